@@ -47,7 +47,11 @@ func jsonDec(c *Case) map[string]any {
 	out := map[string]any{"valid": json.Valid(b)}
 	seen := map[string]bool{}
 	for i := 0; i < 6; i++ {
-		r, e := callFnVM(vm, php.NewJsonDecodeFunction(), data.NewStringValue(string(b)), data.NewBoolValue(c.Assoc))
+		args := []data.Value{data.NewStringValue(string(b)), data.NewBoolValue(c.Assoc)}
+		if c.Depth != 0 {
+			args = append(args, data.NewIntValue(c.Depth))
+		}
+		r, e := callFnVM(vm, php.NewJsonDecodeFunction(), args...)
 		if e != "" {
 			return map[string]any{"err": e}
 		}
